@@ -19,6 +19,7 @@ import (
 //   - through LState.CallByParam (with and without Protect), LState.Call, LState.PCall,
 //   - on the main state, on a second thread of the same state (shared Global), and from inside a
 //     host function that is itself running under Lua frames of depth 1..6 (re-entrant),
+//
 // and checks: no error, GetTop grew by exactly the number of results asked for (or produced, for
 // MultRet), the values are the oracle's list truncated / nil-padded to that number, and a Go callee
 // saw exactly the arguments passed (GetTop inside the callee). Between probes the history moves on:
@@ -68,6 +69,10 @@ function tpop() T[#T] = nil end
 function tspread() return unpack(T) end
 function tspreadgo() return gecho(unpack(T)) end
 function tcount() return select('#', unpack(T)), #T end
+function manyctor(n) local t = {many(n)}; return #t, t[n], select('#', unpack(t)), select('#', many(n)) end
+function manyva(n) return va0(many(n)) end
+function manyarg(n) return argf(many(n)) end
+function gretctx(k) local a, b, c = gret(k); local t = {gret(k)}; local u = {gret(k), gret(k)}; return a, b, c, #t, #u, (gret(k)), select('#', gret(k)), select('#', gret(k), gret(k)) end
 function enter(d) if d == 0 then return inhost() end local r = enter(d - 1) return r end
 `
 
@@ -79,6 +84,23 @@ func nilPad(vs []lua.LValue, i int) lua.LValue {
 }
 
 func num(n int) lua.LValue { return lua.LNumber(n) }
+
+func manyN(a []lua.LValue) int {
+	if len(a) > 0 {
+		if n, ok := a[0].(lua.LNumber); ok {
+			return int(n)
+		}
+	}
+	return 0
+}
+
+func manySeq(n int) []lua.LValue {
+	out := make([]lua.LValue, n)
+	for i := range out {
+		out[i] = num(i + 1)
+	}
+	return out
+}
 
 func hostCallees() []hcallee {
 	va0 := func(p *hprobe, a []lua.LValue) []lua.LValue { return append([]lua.LValue{num(len(a))}, a...) }
@@ -111,22 +133,32 @@ func hostCallees() []hcallee {
 		{name: "coro", want: va0},
 		{name: "popunpack", noNil: true, want: func(p *hprobe, a []lua.LValue) []lua.LValue { return a }},
 		{name: "popcount", noNil: true, want: func(p *hprobe, a []lua.LValue) []lua.LValue { return []lua.LValue{num(len(a)), num(len(a))} }},
-		{name: "selfm", want: func(p *hprobe, a []lua.LValue) []lua.LValue { return append([]lua.LValue{lua.LTrue, num(len(a))}, a...) }},
+		{name: "selfm", want: func(p *hprobe, a []lua.LValue) []lua.LValue {
+			return append([]lua.LValue{lua.LTrue, num(len(a))}, a...)
+		}},
 		{name: "callable", want: func(p *hprobe, a []lua.LValue) []lua.LValue {
 			return []lua.LValue{nilPad(a, 0), num(len(a[min(1, len(a)):]))}
 		}},
 		{name: "gocallable", want: func(p *hprobe, a []lua.LValue) []lua.LValue { return append([]lua.LValue{p.objs["gocallable"]}, a...) }},
 		{name: "tailcallable", want: func(p *hprobe, a []lua.LValue) []lua.LValue { return append([]lua.LValue{p.objs["gocallable"]}, a...) }},
-		{name: "many", maxN: 1, want: func(p *hprobe, a []lua.LValue) []lua.LValue {
-			n := 0
-			if len(a) > 0 {
-				n = int(a[0].(lua.LNumber))
-			}
-			out := make([]lua.LValue, n)
-			for i := range out {
-				out[i] = num(i + 1)
-			}
-			return out
+		{name: "many", maxN: 1, want: func(p *hprobe, a []lua.LValue) []lua.LValue { return manySeq(manyN(a)) }},
+		{name: "manyctor", maxN: 1, want: func(p *hprobe, a []lua.LValue) []lua.LValue {
+			n := manyN(a)
+			return []lua.LValue{num(n), nilPad(manySeq(n), n-1), num(n), num(n)}
+		}},
+		{name: "manyva", maxN: 1, want: func(p *hprobe, a []lua.LValue) []lua.LValue {
+			n := manyN(a)
+			return append([]lua.LValue{num(n)}, manySeq(n)...)
+		}},
+		{name: "manyarg", maxN: 1, want: func(p *hprobe, a []lua.LValue) []lua.LValue {
+			s := manySeq(manyN(a))
+			s = s[min(1, len(s)):]
+			return []lua.LValue{num(len(s)), nilPad(s, 0), nilPad(s, len(s)-1)}
+		}},
+		{name: "gretctx", maxN: 1, want: func(p *hprobe, a []lua.LValue) []lua.LValue {
+			k := manyN(a)
+			s := manySeq(k)
+			return []lua.LValue{nilPad(s, 0), nilPad(s, 1), nilPad(s, 2), num(k), num(min(k, 1) + k), nilPad(s, 0), num(k), num(1 + k)}
 		}},
 		{name: "tspread", maxN: -1, want: func(p *hprobe, a []lua.LValue) []lua.LValue { return append([]lua.LValue{}, p.shared...) }},
 		{name: "tspreadgo", maxN: -1, want: func(p *hprobe, a []lua.LValue) []lua.LValue { return append([]lua.LValue{}, p.shared...) }},
@@ -268,6 +300,14 @@ func hostCallsRun(opt lua.Options, seed uint64, n int) (fails []string, nprobes 
 	for _, S := range []*lua.LState{L, other} {
 		S.SetGlobal("gecho", S.NewFunction(gecho))
 		S.SetGlobal("inhost", S.NewFunction(func(S *lua.LState) int { return 0 }))
+		S.SetGlobal("gret", S.NewFunction(func(S *lua.LState) int {
+			k := S.CheckInt(1)
+			S.SetTop(0)
+			for i := 1; i <= k; i++ {
+				S.Push(lua.LNumber(i))
+			}
+			return k
+		}))
 		if err := S.DoString(hostPrelude); err != nil {
 			return []string{"prelude: " + err.Error()}, 0
 		}
@@ -305,7 +345,9 @@ func hostCallsRun(opt lua.Options, seed uint64, n int) (fails []string, nprobes 
 				args[i] = pool[r.Intn(len(pool))]
 			}
 		}
-		if c.name == "many" {
+		if c.name == "gretctx" {
+			args = []lua.LValue{num(r.Intn(6))}
+		} else if strings.HasPrefix(c.name, "many") {
 			args = []lua.LValue{num([]int{0, 1, 2, 3, 49, 50, 51, 100, 127, 128, 129, 254, 255, 256, 300, 513}[r.Intn(16)])}
 		}
 		nret := []int{0, 1, 2, 4, lua.MultRet, lua.MultRet}[r.Intn(6)]
